@@ -139,10 +139,33 @@ impl Property for C17 {
             &ri::RiOpts { draws: Some(real.draws.clone()), row_cap: 300, ..Default::default() },
         );
         fact_classes(&mut out, &t);
+        // Control experiment: the same program with every random(e) replaced by the literal 1.
+        // If the crate disagrees with the reference even there, whatever differs in the real
+        // run is not caused by random, and reference-dependent findings are not reported.
+        let control_ok = |out: &mut CaseOut| -> bool {
+            let mut p2 = built.prog.clone();
+            strip_random(&mut p2.stmts);
+            let text2 = crate::print::canonical(&p2).text;
+            let t2 = ri::run(&p2, &built.sigs, &spec, &ri::RiOpts { row_cap: 300, ..Default::default() });
+            let ok = match load(&text2, &built.sigs) {
+                Ok(tc2) => {
+                    let real2 = run_real(&tc2, &built.sigs, &spec, &RunOpts { max_next: 301, seed: Some(seed), ..Default::default() });
+                    trace_diff(&t2, &real2, Projection::ALL).is_none()
+                }
+                Err(_) => false,
+            };
+            if !ok {
+                out.class("divergence-not-caused-by-random");
+            }
+            ok
+        };
         // what the replay found
         if let Some(ri::RiItem::Hazard { hazard, .. }) = t.items.last() {
             match hazard {
                 ri::Hazard::DrawMismatch(m) => {
+                    if !control_ok(&mut out) {
+                        return out;
+                    }
                     out.fail("c17:draw-mismatch", format!("{m}\n log: {:?}", &real.draws[..real.draws.len().min(40)]));
                     return out;
                 }
@@ -151,6 +174,9 @@ impl Property for C17 {
                     // real run was stopped by the harness (cap on next() calls), in which case
                     // the log simply ends where the run was cut
                     if real.ended || real.items.len() < t.items.len() - 1 || real.items.len() < opts.max_next {
+                        if !control_ok(&mut out) {
+                            return out;
+                        }
                         out.fail(
                             "c17:missing-draw",
                             format!("a random evaluation (or resetRandom) found no event in the crate's log; log: {:?}", &real.draws[..real.draws.len().min(40)]),
@@ -172,22 +198,8 @@ impl Property for C17 {
             // differ. Control experiment: the same program with every random(e) replaced by
             // the literal 1. If the crate also disagrees with the reference there, the
             // divergence has nothing to do with random (some other property's business).
-            if !k.starts_with("panic:") {
-                let mut p2 = built.prog.clone();
-                strip_random(&mut p2.stmts);
-                let text2 = crate::print::canonical(&p2).text;
-                let t2 = ri::run(&p2, &built.sigs, &spec, &ri::RiOpts { row_cap: 300, ..Default::default() });
-                let control_ok = match load(&text2, &built.sigs) {
-                    Ok(tc2) => {
-                        let real2 = run_real(&tc2, &built.sigs, &spec, &RunOpts { max_next: 301, seed: Some(seed), ..Default::default() });
-                        trace_diff(&t2, &real2, Projection::ALL).is_none()
-                    }
-                    Err(_) => false,
-                };
-                if !control_ok {
-                    out.class("divergence-not-caused-by-random");
-                    return out;
-                }
+            if !k.starts_with("panic:") && !control_ok(&mut out) {
+                return out;
             }
             let key = if k.starts_with("panic:") { k } else { format!("c17:{k}") };
             out.fail(key, format!("{m}\n(the same program with every random(e) replaced by 1 agrees with the reference)"));
@@ -195,6 +207,9 @@ impl Property for C17 {
         }
         // the log must be consumed exactly when both runs went to the end
         if matches!(t.end, ri::RiEnd::Finished) && real.ended && t.draws_left != 0 {
+            if !control_ok(&mut out) {
+                return out;
+            }
             out.fail(
                 "c17:extra-draws",
                 format!(
